@@ -175,17 +175,33 @@ def register(props):
         "assumptions": ["scope nests are trees (two scopes sharing one Go object by pointer are outside the quantifier)",
                         "error PATHS are not compared between a schema and its inlined partner (several faults: first error "
                         "depends on map order); outcome class, constraint flag and values are"],
-        "level_text": "Theorems (unbounded, by induction on fuel): ApplyNamespace changes the link of an occurrence only if a "
-                      "reference with the applied namespace sits there (C14_other_ns_untouched); ValidateReferences holds iff every "
-                      "reference occurrence is linked (C14_validate_refs_iff); a self-namespace reference and the object it resolves "
-                      "to behave identically under unserialize / validate / serialize with one unit of fuel less (C14_inline_step_*); "
-                      "the self-referential scope diverges on a non-map input for every fuel (C14_recursive_refuted, D11). "
-                      "Partial / by evaluation only: lexical targets, order irrelevance, link/resolve agreement, inlining in an "
-                      "arbitrary context and termination on recursive graphs are checked on every generated case (direct checks and "
-                      "the correspondence with Schema/Link.v + Schema/Ops.v) and on vm_compute examples, not proved in general.",
-        "level_note": "Model = Schema/Link.v (link table keyed by the path of each reference occurrence; ApplyNamespace, "
-                      "NewScopeSchema construction order, ValidateReferences), hand-written from scope.go / ref.go and the "
-                      "ApplyNamespace methods of list, map, object, property, one-of after the fix for D61; the data operations "
-                      "are Schema/Ops.v with its environment lookup.",
+        "level_text": "Theorems, all unbounded (every schema, table, input and fuel; induction on fuel / on the schema): "
+                      "ApplyNamespace(ns) sets EXACTLY the occurrences of namespace ns, each to the object of that id in the table "
+                      "handed to it (C14_sets_exactly) and leaves all others untouched (C14_other_ns_untouched); after construction "
+                      "every self reference inside a scope is linked to the object of that id in the NEAREST enclosing scope, inner "
+                      "scopes shadowing outer ones (C14_lexical); with the namespaces of the environment applied in any order the "
+                      "link table equals the environment lookup `resolve` of Schema/Ops.v at EVERY reference occurrence "
+                      "(C14_link_agrees); any permutation of the external-namespace applications gives the same link table "
+                      "(C14_order_irrelevant); ValidateReferences holds iff every occurrence is linked (C14_validate_refs_iff); "
+                      "replacing any number of self references by their objects IN AN ARBITRARY CONTEXT (relation inlines_to, closed "
+                      "under list / map / property / one-of member / scope, with the inlined tables entered by scopes) preserves "
+                      "unserialize / validate / serialize on all inputs: every non-OutOfFuel result of the original is the result of "
+                      "the inlined schema at the same fuel, and conversely at twice the fuel (C14_inline_equiv_{unser,validate,"
+                      "serialize}; C14_inline_refs_equiv(_back) for the mechanical inliner used as metamorphic partner; "
+                      "C14_inline_step_* for one step); self- and mutually-referential objects are not OutOfFuel from the explicit "
+                      "bound fuel_bound K e s v = K + 3 + (4*nic_fuel e s + 8)*(1 + vdepth v) on, under wf_schema, no_inline_cycle "
+                      "and defaults_total K (C14_recursive_terminates, built on the C04 termination proof of work package c04c12); "
+                      "without no_inline_cycle it is refuted: the self-referential one-property scope diverges on a non-map input "
+                      "for every fuel (C14_recursive_refuted, D11). Side conditions are boolean functions with examples: luniq "
+                      "(unique keys, as in Go maps), ns_names_ok (distinct namespace names, none the self namespace), "
+                      "refs_to_objects (scope tables hold objects). Partial: C14_order_irrelevant assumes both orders return (it "
+                      "does not derive one from the other); two scopes sharing one Go object by pointer are outside the model.",
+        "level_note": "Model = Schema/Link.v (link table keyed by the STRUCTURED path — a list of steps — of each reference "
+                      "occurrence, so that distinct occurrences provably have distinct paths; lpath_text gives the text the "
+                      "harness prints; ApplyNamespace, NewScopeSchema construction order, ValidateReferences), hand-written from "
+                      "scope.go / ref.go and the ApplyNamespace methods of list, map, object, property, one-of after the fix for "
+                      "D61; the data operations are Schema/Ops.v with its environment lookup. Proofs: Proofs/Link.v, Link2.v "
+                      "(linking), Link2Inline.v (inlining), Link2Term.v + Schema/Wf.v, Schema/Total.v, Proofs/C04Inv.v, "
+                      "C04Term.v, OpsEq.v, MonoEq.v (termination; copied from work package c04c12).",
         "design_ref": "DESIGN.md §5 C14",
     }
